@@ -23,6 +23,7 @@ ops:  cfg <0|1> <0|1> <0|1> <0|1>   (unionOldExpanded literalTypeStrict tgOnly a
       link <via> <s> <r>               make the link              -> link ok | refused | REC | receiver-rejects
       relink <via> <s> <r>             replace_child re-forging a value link (validated, value pushed if taken) -> link ok | refused | REC
       push <via> <s> <r> value         send a value over the link -> push ok | sender-rejects | receiver-rejects | no-link
+      pushd <via> <s> <r> value        like push, the value travels on through the value receivers of both ends
       links                            -> links <via>:<s>><r> ... (newest first)
 -/
 
@@ -232,6 +233,12 @@ def step (st : St) (ws : List String) : St × List String :=
     match parseVia v, s.toNat?, r.toNat?, parseVal ws with
     | some via, some s, some r, some (x, []) =>
       let (n, o) := st.net.push st.cfg via s r x
+      ({ st with net := n }, ["push " ++ showOutcome o])
+    | _, _, _, _ => (st, ["bad-op"])
+  | "pushd" :: v :: s :: r :: ws =>
+    match parseVia v, s.toNat?, r.toNat?, parseVal ws with
+    | some via, some s, some r, some (x, []) =>
+      let (n, o) := st.net.pushDeep st.cfg via s r x
       ({ st with net := n }, ["push " ++ showOutcome o])
     | _, _, _, _ => (st, ["bad-op"])
   | ["links"] =>
